@@ -267,6 +267,33 @@ func judgeFaulted(bi *builtImage, cfg Cfg, s *Snap, res *TaskResult) (clause, de
 	if perr != nil {
 		return "read-panic", panicDetail(perr)
 	}
+	if clause != "" {
+		return clause, detail
+	}
+	// the opened database stays usable: what is written now reads back (positions continue from the repaired end)
+	perr = w.guard(func() error {
+		for i, k := range []string{"a", "b", "a"} {
+			val := []byte(fmt.Sprintf("after-damage-%d-%s", i, strings.Repeat("x", i*40)))
+			if err := w.DB.Put([]byte(k), val); err != nil {
+				return nil // refusing to write is an error return, not a violation
+			}
+			bi.hist[k][string(val)] = true
+			defer delete(bi.hist[k], string(val))
+			got, err := w.DB.Get([]byte(k))
+			if err != nil {
+				clause, detail = "write-after-damage", fmt.Sprintf("after the damaged image was opened, Put(%q) succeeded but Get returned %s", k, errClass(err))
+				return nil
+			}
+			if string(got) != string(val) {
+				clause, detail = "write-after-damage", fmt.Sprintf("after the damaged image was opened, Put(%q,%s) succeeded but Get returned %s", k, short(string(val)), short(string(got)))
+				return nil
+			}
+		}
+		return nil
+	})
+	if perr != nil {
+		return "write-panic", panicDetail(perr)
+	}
 	return clause, detail
 }
 
